@@ -243,6 +243,7 @@ def _d_plain_drivers(chk, tier):
     total = 0
     for fam, q, ham in PLAIN:
         bad, badres = [], []
+        problems = set()
         n = 0
         for grid in grids:
             for acc in ([()] if fam == "fixed" else acc_tapes):
@@ -252,6 +253,7 @@ def _d_plain_drivers(chk, tier):
                     kind, out = h.run(RK, q, grid=grid)
                 except OutsideFragment as exc:
                     raise AnalysisError(f"{q} left the analysable fragment: {exc}")
+                problems |= set(h.problems)
                 ref = drv.ref_fixed(grid) if fam == "fixed" else drv.ref_adaptive(fam, acc, 0, 1, "1/2", "1/2", grid=grid)
                 d = drv.compare(h.trace, ref, ham) if kind == "return" else f"raised {out}"
                 if d:
@@ -267,6 +269,8 @@ def _d_plain_drivers(chk, tier):
                   f"pass t_end; only accepted steps are committed; a rejected step is retried smaller from the same node; every requested time is sampled by the dense "
                   f"output of the segment containing it): e.g. {bad[0] if bad else ''}",
                   sample=f"{n} cases match the reference ({'grid differences as steps' if fam == 'fixed' else 'accept/reject tapes of length ' + str(len(acc_tapes[0]))})")
+        chk.check(not problems, "C10.d", f"{RK}::{q}[arguments]", f"argument forwarding problems: {sorted(problems)[:3]}",
+                  sample="tables, tolerances and Hamiltonian data reach the kernels in their own slots", nontrivial=False)
         chk.check(not badres, "C10.d", f"{RK}::{q}[samples]", f"returned samples are not one per requested time in grid order: {badres[:1]}",
                   sample="states[i] = sample at t_eval[i]; states[0] = y0 (fixed) / dense output at theta=0 of the first segment (adaptive)")
     chk.count("driver tapes unrolled", total)
